@@ -15,10 +15,22 @@ Oracle (the property restated in Python, evaluated on the implementation):
              really hands to kernels.subband.
   sched-*  : every compiled kernel under numba.set_num_threads(1..16) x set_parallel_chunksize{0,1,2,7} x repetitions x
              shapes from 1x1 to iterations >> threads must be bit-identical to `.py_func` on exact-arithmetic data (a NumPy
-             restatement on the same data only confirms exactness; a difference there is reported as a note).  (This is the runtime part no model can express: the property is PARTIAL for it.)"""
+             restatement on the same data only confirms exactness; a difference there is reported as a note).  (This is the runtime part no model can express: the property is PARTIAL for it.)
+             Output AND the other array arguments are compared.  Kernels without a declared signature (invert_freq, decimators,
+             moments) also on uint16 (16-bit files); the moments on uint8/uint16/float32, and at sample counts 49, 98, 103, 107, 196
+             with the second central sum on a float32 rounding tie (one float64 ulp in delta/n flips the stored field).
+  sched-subband-callsite / subband-callsite-exception : the compiled call Filterbank.subband makes (8/32-bit files, with and
+             without channel delays, one channel) against the Python definition on the same arguments; a sub-band count that
+             does not divide the channels may only be rejected with ValueError."""
 import os
 import re
 import shutil
+import sys
+
+# the property quantifies over thread counts 1..16: size numba's thread pool to 16 whatever the number of cores of this host
+# (oversubscription is legal).  This only works while numba has not been imported yet; run() reports red if fewer are available.
+if "numba" not in sys.modules:
+    os.environ.setdefault("NUMBA_NUM_THREADS", "16")
 
 import numpy as np
 
@@ -31,8 +43,10 @@ FIELDS = ["count", "m1", "m2", "m3", "m4", "min", "max"]
 # =================================================================================================
 # data generators (integer valued, every partial sum exactly representable in float32)
 # =================================================================================================
-def ints(nprng, n, hi, dtype):
-    return nprng.integers(0, hi, n).astype(dtype)
+def ints(nprng, n, hi, dtype, signed=False):
+    """n integers of [0, hi), or of [-(hi // 2), hi - hi // 2) when signed (float data: both signs)"""
+    lo = hi // 2 if signed else 0
+    return nprng.integers(-lo, hi - lo, n).astype(dtype)
 
 
 def moments_data(nprng, nchans, nsamps, n0=0, mean0=None):
@@ -76,7 +90,9 @@ def rec_to_rows(mom):
 def build_cases(K, nprng, shapes_small, shapes_big, tier):
     """list of Case for every parallel kernel the property enumerates"""
     cases = []
-    DT = [("u1", np.uint8), ("f4", np.float32)]
+    # u1 / f4: the two signatures the kernels with a declared signature are compiled for.  u2: what a 16-bit file hands to the
+    # kernels WITHOUT a declared signature (invert_freq, the decimators, the moments), which specialise per dtype on first use.
+    DT = [("u1", np.uint8), ("f4", np.float32), ("u2", np.uint16)]
 
     def add(kernel, label, dtype, shape, mk, call, ref, work, outs=1):
         cases.append(Case(kernel, label, dtype, shape, mk, call, ref, work, outs))
@@ -85,24 +101,26 @@ def build_cases(K, nprng, shapes_small, shapes_big, tier):
     chan_shapes = shapes_small + shapes_big["chans"]          # iterations = channels
     for dn, dt in DT:
         hi = 256 if dn == "u1" else 1000
+        sg = dn == "f4"                 # float data takes both signs
+        declared = dn != "u2"           # kernels with a declared signature exist for u1 and f4 only
         # ---- extract_tim (prange over samples) ----
-        for C, N in sample_shapes:
-            x = ints(nprng, C * N, hi, dt); idx = int(nprng.integers(0, 4))
+        for C, N in (sample_shapes if declared else []):
+            x = ints(nprng, C * N, hi, dt, sg); idx = int(nprng.integers(0, 4))
             o0 = ints(nprng, N + idx + 2, 50, np.float32)
             add("extract_tim", "extract_tim", dn, (C, N),
                 lambda x=x, o0=o0: (x.copy(), o0.copy()),
                 lambda f, a, C=C, N=N, idx=idx: (f(a[0], a[1], C, N, idx), a[1])[1],
                 lambda x=x, o0=o0, C=C, N=N, idx=idx: _ref_tim(x, o0, C, N, idx), C * N)
         # ---- extract_bpass (prange over channels) ----
-        for C, N in chan_shapes:
-            x = ints(nprng, C * N, hi, dt); o0 = ints(nprng, C, 50, np.float32)
+        for C, N in (chan_shapes if declared else []):
+            x = ints(nprng, C * N, hi, dt, sg); o0 = ints(nprng, C, 50, np.float32)
             add("extract_bpass", "extract_bpass", dn, (C, N),
                 lambda x=x, o0=o0: (x.copy(), o0.copy()),
                 lambda f, a, C=C, N=N: (f(a[0], a[1], C, N), a[1])[1],
                 lambda x=x, o0=o0, C=C, N=N: (o0.astype(np.float64) + x.reshape(N, C).astype(np.float64).sum(0)).astype(np.float32), C * N)
         # ---- mask_channels ----
-        for C, N in chan_shapes:
-            x = ints(nprng, C * N, hi, dt); mask = nprng.integers(0, 2, C).astype(bool)
+        for C, N in (chan_shapes if declared else []):
+            x = ints(nprng, C * N, hi, dt, sg); mask = nprng.integers(0, 2, C).astype(bool)
             if C > 1:
                 mask[int(nprng.integers(0, C))] = True
             mv = dt(int(nprng.integers(0, hi)))
@@ -111,13 +129,13 @@ def build_cases(K, nprng, shapes_small, shapes_big, tier):
                 lambda f, a, C=C, N=N, mv=mv: (f(a[0], a[1], mv, C, N), a[0])[1],
                 lambda x=x, mask=mask, C=C, N=N, mv=mv: _ref_mask(x, mask, mv, C, N), C * N)
         # ---- dedisperse / subband ----
-        for C, N in sample_shapes:
+        for C, N in (sample_shapes if declared else []):
             md = int(nprng.integers(0, max(1, min(N, 6))))
             d = nprng.integers(0, md + 1, C).astype(np.int32)
             if C > 0 and md > 0:
                 d[int(nprng.integers(0, C))] = md
             md = int(d.max()) if C else 0
-            x = ints(nprng, C * N, hi, dt); idx = int(nprng.integers(0, 4))
+            x = ints(nprng, C * N, hi, dt, sg); idx = int(nprng.integers(0, 4))
             o0 = ints(nprng, N - md + idx + 1, 50, np.float32)
             add("dedisperse", "dedisperse", dn, (C, N),
                 lambda x=x, o0=o0, d=d: (x.copy(), o0.copy(), d.copy()),
@@ -132,15 +150,15 @@ def build_cases(K, nprng, shapes_small, shapes_big, tier):
                     lambda x=x, os0=os0, d=d, cts=cts, md=md, C=C, N=N, S=S: _ref_subband(x, os0, d, cts, md, C, S, N), C * N)
         # ---- invert_freq ----
         for C, N in sample_shapes:
-            x = ints(nprng, C * N, hi, dt)
+            x = ints(nprng, C * N, hi, dt, sg)
             add("invert_freq", "invert_freq", dn, (C, N),
                 lambda x=x: (x.copy(),),
                 lambda f, a, C=C, N=N: f(a[0], C, N),
                 lambda x=x, C=C, N=N: x.reshape(N, C)[:, ::-1].ravel().copy(), C * N)
         # ---- remove_zerodm ----
-        for C, N in sample_shapes:
+        for C, N in (sample_shapes if declared else []):
             vmax = max(1, min(4, 60 // max(C, 1))) if dn == "u1" else 9
-            x = ints(nprng, C * N, vmax + 1, dt)
+            x = ints(nprng, C * N, vmax + 1, dt, sg)
             wts = nprng.integers(0, 2, C).astype(np.float32)
             base = C * vmax if dn == "u1" else 0
             if dn == "u1" and base + vmax + 3 > 255:      # keep u1 results in range: no weights
@@ -173,24 +191,76 @@ def build_cases(K, nprng, shapes_small, shapes_big, tier):
                     lambda arr=arr: (arr.ravel().copy(),),
                     lambda f, a, f1=f1, f2=f2, d1=d1, d2=d2: f(a[0], f1, f2, d1, d2),
                     lambda arr=arr, f1=f1, f2=f2, d1=d1, d2=d2, dt=dt: _ref_ds2(arr, f1, f2, d1, d2, dt), d1 * d2)
-    # ---- online moments (float32 data, record output) ----
+    # ---- online moments (record output; float32 data, and the uint8 / uint16 blocks ChannelStats.push_data really hands over:
+    #      the kernels have no declared signature and specialise per dtype) ----
     for C, N in chan_shapes:
         N = min(N, 6)
         for basic in (False, True):
             name = "compute_online_moments_basic" if basic else "compute_online_moments"
             n1 = max(1, N // 2)
-            x = moments_data(nprng, C, N)
-            add(name, name, "f4", (C, N),
-                lambda x=x, C=C: (x.astype(np.float32).ravel(), np.zeros(C, dtype=K.moments_dtype)),
-                lambda f, a, n1=n1, C=C: _call_moments(f, a, n1, C),
-                lambda x=x, basic=basic: _ref_moments(x, basic), C * N, outs="moments")
+            for dn, dt in DT:
+                x = moments_data(nprng, C, N)          # samples stay below 256
+                add(name, name, dn, (C, N),
+                    lambda x=x, C=C, dt=dt: (x.astype(dt).ravel(), np.zeros(C, dtype=K.moments_dtype)),
+                    lambda f, a, n1=n1, C=C: _call_moments(f, a, n1, C),
+                    lambda x=x, basic=basic: _ref_moments(x, basic), C * N, outs="moments")
+    cases += moments_divisor_cases(K, nprng)
+    return cases
+
+
+# sample counts at which a reciprocal-multiplication "division" delta * (1/n) misses the exactly representable quotient delta / n
+MOMENT_COUNTS = (49, 98, 103, 107, 196)
+
+
+def _tie_steps(N, basic, vmax):
+    """odd steps c for which the second central sum N*(N-1)*c**2 of (N-1 equal samples, one sample N*c higher) lies exactly half way
+    between two float32 numbers, so that an error of one float64 ulp in delta/n decides which way the float32 record field rounds;
+    every intermediate of update_moments stays an integer below 2**53 (no rounding before the store, whatever the evaluation order).
+    Falls back to small odd steps where the dtype (N*c <= vmax) or the fourth sum does not leave room."""
+    o = N * (N - 1)
+    while o % 2 == 0:
+        o //= 2
+    lo, hi = int(np.ceil(np.sqrt((1 << 24) / o))), int(np.floor(np.sqrt(((1 << 25) - 1) / o)))
+
+    def fits(c):
+        return N * c <= vmax and (basic or N * (N - 1) * c ** 4 * (N * N - 3 * N + 3) < (1 << 53))
+    ties = [c for c in range(lo, hi + 1) if c % 2 == 1 and fits(c)]
+    small = [c for c in (1, 3, 5, 7, 9) if fits(c)]
+    return ties, small
+
+
+def moments_divisor_cases(K, nprng):
+    """N - 1 equal samples k and a last one k + N*c per channel, in two chunks: count, mean and all central sums are integers
+    (delta / n = c exactly at n = N in {49, 98, 103, 107, 196}); float32 / uint16 data put the second sum on a float32 rounding tie"""
+    cases = []
+    C = 37                                 # more channels than threads, not a multiple of any thread count
+    for N in MOMENT_COUNTS:
+        for basic in (False, True):
+            name = "compute_online_moments_basic" if basic else "compute_online_moments"
+            for dn, dt, vmax in (("f4", np.float32, 60000), ("u2", np.uint16, 60000), ("u1", np.uint8, 215)):
+                ties, small = _tie_steps(N, basic, vmax)
+                pool = ties if ties else small
+                if not pool:
+                    continue
+                c = np.array([pool[int(j)] for j in nprng.integers(0, len(pool), C)], dtype=np.int64)
+                c[:3] = small[0] if small else pool[0]          # some small steps as well (and, with 0 below, an untouched channel)
+                c[0] = 0
+                k = nprng.integers(1, 40, C)
+                x = np.repeat(k[None, :], N, axis=0).astype(np.int64)
+                x[N - 1] += N * c
+                n1 = int(nprng.integers(1, N - 1))
+                cases.append(Case(name, name, dn, (C, N),
+                                  lambda x=x, dt=dt: (x.astype(dt).ravel(), np.zeros(C, dtype=K.moments_dtype)),
+                                  lambda f, a, n1=n1: _call_moments(f, a, n1, C),
+                                  lambda x=x, basic=basic: _ref_moments(x, basic).astype(np.float32).astype(np.float64),
+                                  C * N, "moments"))
     return cases
 
 
 # factor products at which a reciprocal-multiplication "division" x * (1/n) misses exactly representable quotients
 DECIM_1D = (49, 98, 103, 107, 196)
 DECIM_2D = ((7, 7), (7, 14), (14, 14), (1, 103), (107, 1), (49, 2), (1, 49))
-DECIM_DT = (("u1", np.uint8), ("i4", np.int32), ("f8", np.float64))
+DECIM_DT = (("u1", np.uint8), ("i4", np.int32), ("f8", np.float64), ("u2", np.uint16))
 
 
 def decimation_exact_cases(nprng, tier):
@@ -200,6 +270,8 @@ def decimation_exact_cases(nprng, tier):
     nout = 37                      # more output rows than threads, not a multiple of any thread count
     for dn, dt in DECIM_DT:
         for fac in DECIM_1D:
+            if tier == "quick" and dn == "u2" and fac not in (49, 103):
+                continue
             hi = min(200, 256 - fac)
             v = _mean_exact(nprng, nout, fac, hi)
             for r in range(12):    # some constant bins: the mean of `fac` copies of k
@@ -210,6 +282,8 @@ def decimation_exact_cases(nprng, tier):
                               lambda v=v, dt=dt: (v.sum(1) // v.shape[1]).astype(dt), arr.size, 1, twin="downsample_1d_mean"))
         for f1, f2 in DECIM_2D:
             if tier == "quick" and dn == "i4" and (f1, f2) in ((49, 2), (1, 49)):
+                continue
+            if tier == "quick" and dn == "u2" and (f1, f2) not in ((7, 7), (1, 103), (107, 1)):
                 continue
             n1, n2 = nout, 3
             d1, d2 = n1 * f1 + (f1 > 1), n2 * f2 + (f2 > 1)
@@ -305,6 +379,23 @@ def _ref_moments(x, basic):
         rows[:, 3] = m3; rows[:, 4] = m4
     rows[:, 5] = mn; rows[:, 6] = mx
     return rows
+
+
+def call_state(cs, f, args):
+    """call the kernel; returns (output, the other array arguments as the call left them)"""
+    out = cs.call(f, args)
+    return out, [a for a in args if isinstance(a, np.ndarray) and a is not out]
+
+
+def args_bytes(arrs):
+    return b"|".join(str(a.dtype).encode() + b":" + out_bytes(a) for a in arrs)
+
+
+def first_arg_diff(got, exp):
+    for j, (a, b) in enumerate(zip(got, exp)):
+        if out_bytes(a) != out_bytes(b):
+            return dict(first_diff(a, b), argument_array=j)
+    return {"note": "number of arrays differs"}
 
 
 def out_bytes(o):
@@ -569,7 +660,8 @@ def corr_cases(K, nprng, rng, n_per):
         xs = nprng.integers(0, 4, C * N).astype(np.float32); bp = nprng.integers(0, 9, C).astype(np.float32); wts = nprng.integers(0, 3, C).astype(np.float32)
         o0 = nprng.integers(0, 9, C * N).astype(np.float32); o = o0.copy()
         K.remove_zerodm.py_func(xs, o, bp, wts, C, N)
-        out.append(("remove_zerodm", chk("remove_zerodm", f"remove_zerodm_pre {a}", f"remove_zerodm_threads {a}", mem([(0, xs), (1, o0), (2, bp), (3, wts)]), 1, C * N, o, N, 5 * C),
+        out.append(("remove_zerodm", chk("remove_zerodm", f"remove_zerodm_pre {a}", f"remove_zerodm_threads {a}", mem([(0, xs), (1, o0), (2, bp), (3, wts)]), 1, C * N, o, N, 5 * C,
+                                         f"remove_zerodm_run (of_list {zl(xs)}) (of_list {zl(o0)}) (of_list {zl(bp)}) (of_list {zl(wts)}) {a}"),
                     {"C": C, "N": N}))
         # downsample 1d / 2d  (bin sums divisible: divcast := Z.div is exact)
         fac = int(nprng.integers(1, 4)); n_new = int(nprng.integers(1, 4))
@@ -617,8 +709,11 @@ def run(R: vlib.Run):
 
     quick = R.tier == "quick"
     R.rule = ("runtime sweep: every parallel kernel (both compiled signatures) x shapes from 1 channel x 1 sample to iterations >> threads x "
-              "numba.set_num_threads(1..16) x set_parallel_chunksize{0,1,2,7} x repetitions, on integer data whose float32 arithmetic is exact, "
-              "bit-compared with .py_func (NumPy restatement as an exactness cross-check); decimation additionally on uint8/int32/float64 data with bin sizes "
+              "numba.set_num_threads(1..16) x set_parallel_chunksize{0,1,2,7} x repetitions, on integer data whose float32 arithmetic is exact "
+              "(float32 data of both signs), output and every other array argument bit-compared with .py_func (NumPy restatement as an exactness cross-check); "
+              "shapes include 1 channel x 300 samples and 200 channels x 1 sample; kernels without a declared signature also on uint16; moments on "
+              "uint8/uint16/float32, plus counts 49, 98, 103, 107, 196 with the second central sum on a float32 rounding tie; Filterbank.subband call site on "
+              "8/32-bit files with delays 0, 2, 3 and one channel, compiled call vs .py_func on the same arguments; decimation additionally on uint8/int32/float64 data with bin sizes "
               "49, 98, 103, 107, 196 (1-D) and 7x7, 7x14, 14x14, 1x103, 107x1, 49x2, 1x49 (2-D), exact integer means, parallel alias and serial twin against .py_func; ownership tracer on .py_func for the small shapes; a case is one compiled "
               "kernel call; distinct = (kernel, dtype, shape, threads, chunk); non-trivial = more than one iteration of the parallel loop")
     R.trusted += ["Coq 8.16.1 kernel + vm_compute (witnesses, examples, correspondence)",
@@ -638,6 +733,8 @@ def run(R: vlib.Run):
     maxthreads = min(16, int(numba.config.NUMBA_NUM_THREADS))
     if maxthreads < 16:
         R.notes.append(f"NUMBA_NUM_THREADS={numba.config.NUMBA_NUM_THREADS}: thread counts swept 1..{maxthreads} only")
+        R.red.append(f"harness: numba's thread pool has {numba.config.NUMBA_NUM_THREADS} threads: the thread counts 1..16 the property quantifies over cannot be "
+                     "swept (unset NUMBA_NUM_THREADS or set it to 16 or more; numba must not be imported before props/c19.py)")
     R.extra_cov["threading_layer_threads"] = maxthreads
 
     # the set of parallel kernels found by the translator must be covered by the sweep below
@@ -648,8 +745,10 @@ def run(R: vlib.Run):
 
     # ---------------- oracle 1: ownership on the Python definition -----------------------------
     small = [(1, 1), (1, 5), (4, 1), (3, 4), (5, 7)]
-    big = {"samples": [(8, 300)] if quick else [(8, 300), (16, 1500)], "chans": [(200, 6)] if quick else [(200, 6), (700, 4)]}
-    own_cases = build_cases(K, nprng, small, {"samples": [(6, 40)], "chans": [(40, 6)]}, R.tier)
+    # iterations >> threads, also with the other axis degenerate (one channel x many samples, many channels x one sample)
+    big = {"samples": [(8, 300), (1, 300)] if quick else [(8, 300), (1, 300), (16, 1500)],
+           "chans": [(200, 6), (200, 1)] if quick else [(200, 6), (200, 1), (700, 4)]}
+    own_cases = build_cases(K, nprng, small, {"samples": [(6, 40), (1, 40)], "chans": [(40, 6), (40, 1)]}, R.tier)
     covered = set()
     for cs in own_cases:
         if cs.dtype != "f4":
@@ -698,8 +797,9 @@ def run(R: vlib.Run):
         for cs in sweep_cases:
             fn = getattr(K, cs.kernel)
             # the reference is the sequential evaluation of the kernel's own Python definition
-            ref = cs.call(pyfunc_of(K, cs.kernel), cs.mk())
+            ref, ref_in = call_state(cs, pyfunc_of(K, cs.kernel), cs.mk())
             refb = out_bytes(ref)
+            ref_inb = args_bytes(ref_in)      # the input arrays as the Python definition leaves them (untouched, for every kernel today)
             # NumPy restatement on the same data: only to confirm that the arithmetic of this case is exact (it is not what
             # C19 demands: what the kernel computes is the business of C06/C07/C09/C10/C14)
             if out_bytes(cs.ref()) != refb:
@@ -719,7 +819,7 @@ def run(R: vlib.Run):
                         args = cs.mk()
                         numba.set_parallel_chunksize(ch)
                         try:
-                            got = cs.call(fn, args)
+                            got, got_in = call_state(cs, fn, args)
                         finally:
                             numba.set_parallel_chunksize(0)
                         niter = cs.shape[1] if cs.kernel in ("extract_tim", "dedisperse", "subband", "invert_freq", "remove_zerodm") else cs.shape[0]
@@ -731,6 +831,12 @@ def run(R: vlib.Run):
                             R.fail(f"sched-{cs.kernel}", "compiled kernel differs from the sequential evaluation of its own Python definition under this thread configuration",
                                    {"kernel": cs.kernel, "dtype": cs.dtype, "shape": list(cs.shape), "threads": n, "chunksize": ch, "repetition": r,
                                     "diff": first_diff(got, ref)})
+                        elif args_bytes(got_in) != ref_inb and nfail < 3:
+                            nfail += 1
+                            R.fail(f"sched-{cs.kernel}", "compiled kernel leaves its other array arguments (inputs, tables) in a state different from the one the sequential "
+                                                         "evaluation of its own Python definition leaves them in, under this thread configuration",
+                                   {"kernel": cs.kernel, "dtype": cs.dtype, "shape": list(cs.shape), "threads": n, "chunksize": ch, "repetition": r,
+                                    "diff": first_arg_diff(got_in, ref_in)})
             done_k.add(cs.kernel)
     finally:
         numba.set_num_threads(saved_threads)
@@ -782,42 +888,72 @@ def subband_callsite(R, K, nprng):
     os.makedirs(d, exist_ok=True)
     real = K.subband
     try:
-        for nch, nsub in ((8, 4), (6, 3), (4, 1), (10, 4), (6, 4), (7, 2), (5, 3)):
+        # (channels, sub-bands, bits of the file, largest channel delay in samples [0: dm = 0]).  With a delay the kernel runs over
+        # nsamps_r - max_delay rows of a buffer of (gulp - max_delay) * nsub elements, on blocks that overlap by max_delay samples.
+        for nch, nsub, nbits, want_md in ((8, 4, 8, 0), (6, 3, 8, 0), (4, 1, 8, 0), (10, 4, 8, 0), (6, 4, 8, 0), (7, 2, 8, 0), (5, 3, 8, 0),
+                                          (8, 4, 8, 3), (8, 2, 32, 3), (6, 6, 32, 2), (1, 1, 8, 0), (6, 4, 32, 3)):
             N = 24
             x = nprng.integers(0, 200, (N, nch))
-            p = filutil.write_fil(os.path.join(d, f"s{nch}_{nsub}.fil"), x, 8, fch1=1500.0, foff=-1.0, tsamp=0.001)
+            p = filutil.write_fil(os.path.join(d, f"s{nch}_{nsub}_{nbits}_{want_md}.fil"), x, nbits, fch1=1500.0, foff=-1.0, tsamp=0.001)
+            dm = 0.0
+            if want_md:
+                hdr = FilReader(p).header
+                dm = next((float(v) for v in np.linspace(5.0, 2000.0, 400) if int(np.max(hdr.get_dmdelays(float(v)))) == want_md), None)
+                if dm is None:
+                    R.red.append(f"harness: no DM gives a largest delay of {want_md} samples for the {nch}-channel call-site file")
+                    continue
             seen = []
 
             def spy(*a, seen=seen):
-                tr = traced_call(K, real.py_func, [t.copy() if isinstance(t, np.ndarray) else t for t in a],
+                copies = [t.copy() if isinstance(t, np.ndarray) else t for t in a]
+                tr = traced_call(K, real.py_func, copies,
                                  names=["inarray", "outarray", "delays", "chan_to_sub", None, None, None, None])
-                seen.append((tr, int(np.max(a[3])) if a[3].size else -1, int(a[6]), int(a[1].size)))
-                return real(*a)
+                r = real(*a)
+                # the compiled call on the library's own arguments against the sequential evaluation of the Python definition on
+                # copies of them (integer samples below 200: exact): output and the other arrays
+                same = tr.error is None and all(np.asarray(u).tobytes() == np.asarray(v).tobytes()
+                                                for u, v in zip(a[:4], copies[:4]))
+                seen.append((tr, int(np.max(a[3])) if a[3].size else -1, int(a[6]), int(a[1].size), same or tr.error is not None, int(a[4])))
+                return r
             K.subband = spy
             status = "ok"
             try:
-                FilReader(p).subband(dm=0.0, nsub=nsub, outfile_name=os.path.join(d, "out.sub"), gulp=16, quiet=True)
+                FilReader(p).subband(dm=dm, nsub=nsub, outfile_name=os.path.join(d, "out.sub"), gulp=16, quiet=True)
             except ValueError as e:
                 status = "ValueError"
             except Exception as e:  # noqa: BLE001
                 status = f"{type(e).__name__}: {str(e)[:80]}"
             finally:
                 K.subband = real
-            R.case(("site", nch, nsub), nontrivial=True, regime="owner:subband-callsite(" + ("divides" if nch % nsub == 0 else "does-not-divide") + ")",
-                   sample={"oracle": "owner-callsite", "nchans": nch, "nsub": nsub, "status": status, "kernel_calls": len(seen)} if (nch, nsub) in ((8, 4), (10, 4)) else None)
-            for tr, mx, ns, osz in seen:
+            R.case(("site", nch, nsub, nbits, want_md), nontrivial=True, regime="owner:subband-callsite(" + ("divides" if nch % nsub == 0 else "does-not-divide") + ")",
+                   sample={"oracle": "owner-callsite", "nchans": nch, "nsub": nsub, "status": status, "kernel_calls": len(seen)}
+                   if (nch, nsub, nbits, want_md) in ((8, 4, 8, 0), (10, 4, 8, 0)) else None)
+            where = {"nchans": nch, "nsub": nsub, "nbits": nbits, "dm": dm, "max_delay": want_md,
+                     "replay": f"FilReader(<{nbits}-bit file, {nch} channels, {N} samples, fch1=1500, foff=-1, tsamp=1e-3>).subband(dm={dm}, nsub={nsub}, gulp=16)"}
+            if want_md and seen and any(s[5] != want_md for s in seen):
+                R.red.append(f"harness: call-site case {nch}/{nsub}: the kernel got max_delay {sorted({s[5] for s in seen})}, not {want_md}")
+            # a sub-band count that does not divide the channels may be rejected (ValueError) -- it must not fail in any other way
+            if nch % nsub != 0 and status not in ("ok", "ValueError"):
+                R.fail("subband-callsite-exception", "Filterbank.subband neither works nor raises ValueError for a sub-band count that does not divide the channels",
+                       dict(where, status=status))
+            for tr, mx, ns, osz, same, _md in seen:
+                if not same and mx < ns:
+                    R.fail("sched-subband-callsite", "the compiled kernel call Filterbank.subband makes differs from the sequential evaluation of the kernel's Python "
+                                                     "definition on the same arguments (output, or an input array changed)", where)
+                    break
+            for tr, mx, ns, osz, _same, _md in seen:
                 ok, why = tr.verdict()
                 if not ok or mx >= ns:
                     R.fail("owner-subband-callsite",
                            ("Filterbank.subband hands kernels.subband a chan_to_sub table that reaches nsubs: iteration isamp also updates row isamp+1 "
                             "(two iterations store the same element; the last row is stored outside the buffer)") if mx >= ns else
                            "in the kernel call made by Filterbank.subband an element is stored by more than one iteration of the parallel loop",
-                           {"nchans": nch, "nsub": nsub, "max_chan_to_sub": mx, "nsubs": ns, "conflict": why, "tracer_error": tr.error,
-                            "replay": f"FilReader(<8-bit file, {nch} channels, {N} samples>).subband(dm=0, nsub={nsub}, gulp=16)"})
+                           {"nchans": nch, "nsub": nsub, "nbits": nbits, "dm": dm, "max_chan_to_sub": mx, "nsubs": ns, "conflict": why, "tracer_error": tr.error,
+                            "replay": where["replay"]})
                     break
             if nch % nsub == 0 and (status != "ok" or not seen):
                 R.fail("subband-callsite-rejects-valid", "Filterbank.subband fails for a sub-band count that divides the channels",
-                       {"nchans": nch, "nsub": nsub, "status": status})
+                       {"nchans": nch, "nsub": nsub, "nbits": nbits, "dm": dm, "status": status})
     finally:
         K.subband = real
         shutil.rmtree(d, ignore_errors=True)
